@@ -38,8 +38,14 @@ Definition codes (s : string) : str := map (fun a => Z.of_N (N_of_ascii a)) (lis
 Definition mem_str (w : str) (l : list str) : bool := existsb (str_eqb w) l.
 
 (* the reserved words: REGENERATED from cassandra/metadata.py (Gen/CqlKeywords.v) *)
-Definition reserved_words : list str := Eval vm_compute in map codes cql_keywords_reserved.
-Definition reserved (w : str) : bool := mem_str w reserved_words.
+Definition driver_reserved_words : list str := Eval vm_compute in map codes cql_keywords_reserved.
+Definition driver_reserved (w : str) : bool := mem_str w driver_reserved_words.
+(* independent transcription: words reserved in every Cassandra release.  The lexer reserves them whatever the driver
+   table says, so a word dropped from the driver table is still not an identifier when left bare. *)
+Definition core_reserved_words : list str := Eval vm_compute in map codes
+  ["add"; "allow"; "alter"; "and"; "apply"; "asc"; "authorize"; "batch"; "begin"; "by"; "columnfamily"; "create"; "delete"; "desc"; "describe"; "drop"; "entries"; "execute"; "from"; "full"; "grant"; "if"; "in"; "index"; "infinity"; "insert"; "into"; "is"; "keyspace"; "limit"; "materialized"; "modify"; "nan"; "norecursive"; "not"; "null"; "of"; "on"; "or"; "order"; "primary"; "rename"; "replace"; "revoke"; "schema"; "select"; "set"; "table"; "to"; "token"; "truncate"; "unlogged"; "update"; "use"; "using"; "view"; "where"; "with"]%string.
+(* what the CQL lexer treats as a keyword: the driver table (DESIGN 4.0) and the core list *)
+Definition reserved (w : str) : bool := driver_reserved w || mem_str w core_reserved_words.
 
 (* longest prefix satisfying p *)
 Fixpoint span (p : Z -> bool) (s : str) : str * str :=
@@ -155,7 +161,7 @@ Definition py_lower (s : str) : str := map to_lower s.
 
 (* metadata.is_valid_name (name is not None) *)
 Definition is_valid_name_d (dollar : bool) (n : str) : bool :=
-  if reserved (py_lower n) then false else word_re_match_d dollar n.
+  if driver_reserved (py_lower n) then false else word_re_match_d dollar n.
 
 Definition maybe_escape_name_d (dollar : bool) (n : str) : str := if is_valid_name_d dollar n then n else escape_name n.
 
